@@ -22,6 +22,8 @@ Kinds == [
   arrf8     |-> [isT |-> FALSE, isA |-> TRUE,  dt |-> "f8",  const |-> FALSE, graph |-> FALSE, grad |-> FALSE, view |-> FALSE, nd |-> 1],
   arrf4     |-> [isT |-> FALSE, isA |-> TRUE,  dt |-> "f4",  const |-> FALSE, graph |-> FALSE, grad |-> FALSE, view |-> FALSE, nd |-> 1],
   arrview   |-> [isT |-> FALSE, isA |-> TRUE,  dt |-> "f8",  const |-> FALSE, graph |-> FALSE, grad |-> FALSE, view |-> TRUE,  nd |-> 1],
+  arrT      |-> [isT |-> FALSE, isA |-> TRUE,  dt |-> "f8",  const |-> FALSE, graph |-> FALSE, grad |-> FALSE, view |-> TRUE,  nd |-> 2],
+  arrF      |-> [isT |-> FALSE, isA |-> TRUE,  dt |-> "f8",  const |-> FALSE, graph |-> FALSE, grad |-> FALSE, view |-> FALSE, nd |-> 2],
   arri8     |-> [isT |-> FALSE, isA |-> TRUE,  dt |-> "i8",  const |-> FALSE, graph |-> FALSE, grad |-> FALSE, view |-> FALSE, nd |-> 1],
   arrc16    |-> [isT |-> FALSE, isA |-> TRUE,  dt |-> "c16", const |-> FALSE, graph |-> FALSE, grad |-> FALSE, view |-> FALSE, nd |-> 1],
   tleaf     |-> [isT |-> TRUE,  isA |-> FALSE, dt |-> "f8",  const |-> FALSE, graph |-> FALSE, grad |-> FALSE, view |-> FALSE, nd |-> 1],
@@ -30,6 +32,7 @@ Kinds == [
   tgraph    |-> [isT |-> TRUE,  isA |-> FALSE, dt |-> "f8",  const |-> FALSE, graph |-> TRUE,  grad |-> FALSE, view |-> FALSE, nd |-> 1],
   tgrad     |-> [isT |-> TRUE,  isA |-> FALSE, dt |-> "f8",  const |-> FALSE, graph |-> FALSE, grad |-> TRUE,  view |-> FALSE, nd |-> 1],
   tview     |-> [isT |-> TRUE,  isA |-> FALSE, dt |-> "f8",  const |-> FALSE, graph |-> TRUE,  grad |-> FALSE, view |-> TRUE,  nd |-> 1],
+  tT        |-> [isT |-> TRUE,  isA |-> FALSE, dt |-> "f8",  const |-> FALSE, graph |-> TRUE,  grad |-> FALSE, view |-> TRUE,  nd |-> 2],
   tf4       |-> [isT |-> TRUE,  isA |-> FALSE, dt |-> "f4",  const |-> FALSE, graph |-> FALSE, grad |-> FALSE, view |-> FALSE, nd |-> 1]
 ]
 KindNames == DOMAIN Kinds
@@ -42,7 +45,7 @@ ConstArgs == {"none", "true", "false"}
 \* ---------------------------------------------------------------- tensor() / Tensor() / astensor()
 ConstructCells == {[entry |-> e, kind |-> k, dtype |-> d, constant |-> c, copy |-> cp, ndmin |-> n] :
                      e \in {"tensor", "Tensor", "astensor"}, k \in KindNames, d \in DtArgs, c \in ConstArgs,
-                     cp \in BOOLEAN, n \in {0, 2}}
+                     cp \in BOOLEAN, n \in {0, 3}}
 \* astensor has no copy / ndmin parameters: one representative cell
 RelevantConstruct(c) == c.entry = "astensor" => (~c.copy /\ c.ndmin = 0)
 
